@@ -558,3 +558,40 @@ def check_C18(tier):
                             "the CLI is run 4 times per case in fresh processes (fresh RandomState seeds), with unrelated tables defined before / after the queried one, and the outputs must be identical line by line.")
     c.assumptions, c.exhaustive = ENGINE_ASSUME + ["now() is excluded"], True
     return c.finish()
+
+
+# =====================================================================================  binding self-test
+def selftest():
+    """Demonstrates the binding: an accepted trace is rejected when one recorded field is corrupted or one event is removed,
+    and a replay reports a mismatch when the model's prediction is altered."""
+    vlib.build()
+    ok = True
+    # 1. trace validation: Follow
+    tp = vh_trace("follow", 60, "selftest", seed_=7)
+    cons = follow_consts(0, [], 0, True, [])
+    kw = dict(constants=cons, invariants=["TraceSafety", "TraceUnfinished"], post="TraceRejectedAt", extra={"view": "tview", "constraint": "TrackProgress"})
+    acc, _ = validate_trace("Trace_Follow", tp, "selftest-ok", **kw)
+    print("follow trace accepted:", acc); ok &= acc
+    ev = [json.loads(l) for l in open(tp)]
+    idx = [i for i, e in enumerate(ev) if e["ev"] == "deliver" and e["line"]]
+    i = idx[len(idx) // 2]
+    cor = [dict(e) for e in ev]; cor[i]["line"] = cor[i]["line"][:-1] + [cor[i]["line"][-1] ^ 1]
+    p1 = os.path.join(vlib.BUILD, "tmp", "selftest-corrupt.ndjson"); open(p1, "w").write("\n".join(json.dumps(e) for e in cor) + "\n")
+    acc1, _ = validate_trace("Trace_Follow", p1, "selftest-corrupt", **kw)
+    print("corrupted field rejected:", not acc1); ok &= not acc1
+    rem = [e for j, e in enumerate(ev) if j != i]
+    p2 = os.path.join(vlib.BUILD, "tmp", "selftest-removed.ndjson"); open(p2, "w").write("\n".join(json.dumps(e) for e in rem) + "\n")
+    acc2, _ = validate_trace("Trace_Follow", p2, "selftest-removed", **kw)
+    print("removed event rejected:", not acc2); ok &= not acc2
+    # 2. replay: alter one predicted record of an Engine behaviour
+    r = tlc("MC_Engine", cfg_text(constants=engine_consts(vlib.open_devs(ENGINE_DEVS), "CoreMenu", "Lines3", 2, 1, "JoinSets", ("batch",), "NoIntr", ("plain",)),
+                                  invariants=["Emit"]), "selftest-engine", workers=W)
+    cases = [json.loads(l) for l in open(r.replay_path)]
+    good = [c for c in cases if c["printed"] and c["status"] == "ok"][:50]
+    for c in good:
+        c["printed"] = c["printed"][:-1]           # the model now "predicts" one record less
+    p3 = os.path.join(vlib.BUILD, "tmp", "selftest-engine.ndjson"); open(p3, "w").write("\n".join(json.dumps(c) for c in good) + "\n")
+    rep = vh_replay("engine", p3, "selftest-engine", env_extra={"TZ": "UTC"})
+    print("altered predictions reported: %d of %d" % (rep["n_mismatch"], len(good))); ok &= rep["n_mismatch"] == len(good)
+    print("SELFTEST", "ok" if ok else "FAILED")
+    return 0 if ok else 1
